@@ -4,10 +4,16 @@ VERUS = []
 KANI = [dict(package="datafusion-physical-plan", timeout=900, harnesses=[
     dict(name="c08_array_values_compare", module="physical_plan/sorts_cursor.rs", complete=True,
          what="ArrayValues::{is_null, compare, eq, eq_to_previous, get_value, eq_to_single_row_value} over an arbitrary inner order (symbolic values), every SortOptions combination, every null threshold: compare is exactly the requested rule (NULL placement by nulls_first independent of direction; values by the inner order, reversed iff descending), eq <=> Equal, antisymmetric, transitive"),
+    dict(name="c08_loser_tree_init_k2_bounded", module="physical_plan/sorts_merge.rs", complete=False, bound="2 streams, symbolic u8 heads (possibly exhausted); round-robin tie breaker disabled", what="real is_gt == the merge order (exhausted last, key, then stream index); after the real init_loser_tree (on a forged SortPreservingMergeStream) loser_tree is a permutation of the streams and loser_tree[0] a minimum"),
+    dict(name="c08_loser_tree_update_k2_bounded", module="physical_plan/sorts_merge.rs", complete=False, bound="2 streams, one replay after the winner got an arbitrary new head or was exhausted", what="real update_loser_tree re-establishes permutation + minimum at the root"),
+    dict(name="c08_loser_tree_init_k3_bounded", module="physical_plan/sorts_merge.rs", complete=False, bound="3 streams, symbolic u8 heads (possibly exhausted); round-robin tie breaker disabled", what="real is_gt == the merge order (exhausted last, key, then stream index); after the real init_loser_tree (on a forged SortPreservingMergeStream) loser_tree is a permutation of the streams and loser_tree[0] a minimum"),
+    dict(name="c08_loser_tree_update_k3_bounded", module="physical_plan/sorts_merge.rs", complete=False, bound="3 streams, one replay after the winner got an arbitrary new head or was exhausted", what="real update_loser_tree re-establishes permutation + minimum at the root"),
+    dict(name="c08_loser_tree_init_k4_bounded", module="physical_plan/sorts_merge.rs", complete=False, bound="4 streams, symbolic u8 heads (possibly exhausted); round-robin tie breaker disabled", what="real is_gt == the merge order (exhausted last, key, then stream index); after the real init_loser_tree (on a forged SortPreservingMergeStream) loser_tree is a permutation of the streams and loser_tree[0] a minimum"),
+    dict(name="c08_loser_tree_update_k4_bounded", module="physical_plan/sorts_merge.rs", complete=False, bound="4 streams, one replay after the winner got an arbitrary new head or was exhausted", what="real update_loser_tree re-establishes permutation + minimum at the root"),
 ])]
 TRUSTED = ["Kani 0.68 / CBMC 6.11", "inner CursorValues modelled by a symbolic total order on 4 slots (u8 values): the contract is parametric in the inner order"]
 ASSUMPTIONS = ["NULL layout of a sorted column: NULLs form a prefix (nulls_first) or suffix, described by null_threshold (established by ArrayValues::new from null_count)",
                "only the comparator is within reach; loser tree, batch building, spilling, multi-level merge, TopK heap are not verified"]
-NOT_COVERED = ["loser tree (init_loser_tree/update_loser_tree live inside SortPreservingMergeStream, whose construction needs streams, schema and metrics: not reachable for CBMC; a Verus tournament-tree proof was not attempted)",
+NOT_COVERED = ["loser tree beyond the bounded check (k > 4, round-robin tie-breaker mode, handle_tie)",
                "RowValues / PrimitiveValues / ByteArrayValues inner comparators", "ExternalSorter, TopK, partial sort"]
 EXPLANATION = ""
